@@ -328,7 +328,35 @@ func checkInject(args []string) *finding {
 	return nil
 }
 
+// checkHeredoc: a heredoc argument comes back as the text between the marker lines and the
+// next call returns the next command.
+func checkHeredoc(body string) *finding {
+	line := "cmd k=<<EOF\n" + body + "\nEOF\na a\n"
+	calls, _ := readAll(line)
+	for _, c := range calls {
+		if c.Panic != "" {
+			return &finding{"heredoc-panic", "never panics", fmt.Sprintf("input %s: %s", q(line), c.Panic)}
+		}
+	}
+	if len(calls) < 2 || calls[0].Err != "" {
+		e := ""
+		if len(calls) > 0 {
+			e = calls[0].Err
+		}
+		return &finding{"heredoc-not-terminated", "a heredoc argument comes back as the text between the marker lines", fmt.Sprintf("input %s: first call failed (%q) - the closing marker line was not recognised", q(line), e)}
+	}
+	got := calls[0].Args
+	if len(got) != 2 || got[0] != "cmd" || got[1] != "k="+body {
+		return &finding{"heredoc-content", "a heredoc argument comes back as the text between the marker lines (trimmed of surrounding blanks)", fmt.Sprintf("input %s: got %q, want [cmd %q]", q(line), got, "k="+body)}
+	}
+	if len(calls[1].Args) != 2 || calls[1].Args[0] != "a" || calls[1].Args[1] != "a" {
+		return &finding{"heredoc-next-command", "reading stops exactly at the command's newline so the next call returns the next command", fmt.Sprintf("input %s: second call returned %q (err %q)", q(line), calls[1].Args, calls[1].Err)}
+	}
+	return nil
+}
+
 type witness struct {
+	Heredoc *string `json:"heredoc_body_hex,omitempty"`
 	Raw    *string  `json:"raw_hex,omitempty"`
 	List   *listWit `json:"list,omitempty"`
 	Inject []string `json:"inject,omitempty"`
@@ -452,6 +480,31 @@ func run(c *fw.Ctx) {
 			}
 		}
 	}
+	// E: every heredoc body of <= 4 (quick) / <= 5 (thorough) symbols over {a, newline, E, O, F, space}
+	// (bodies that contain the closing marker line, or have surrounding blanks, are not expressible)
+	hsyms := []string{"a", "\n", "E", "O", "F", " ", "\xff"}
+	hmax := 4
+	if c.Thorough() {
+		hmax = 5
+	}
+	var hrec func(cur string, left int)
+	hrec = func(cur string, left int) {
+		listItem++
+		if c.Mine(listItem) && cur != "" && !strings.Contains("\n"+cur+"\n", "\nEOF\n") && !strings.Contains("\n"+cur, "\nEOF") && cur == strings.Trim(cur, " \t") {
+			c.R.Evaluations++
+			c.Count("heredoc_bodies", 1)
+			if f := checkHeredoc(cur); f != nil {
+				report(f, witness{Heredoc: hexs(cur)})
+			}
+		}
+		if left == 0 {
+			return
+		}
+		for _, sy := range hsyms {
+			hrec(cur+sy, left-1)
+		}
+	}
+	hrec("", hmax)
 	c.R.Distinct = c.R.Evaluations
 	c.Sample(map[string]interface{}{"raw": "a \\a\n\"a b\" k=<<", "note": "every string over the 9-byte alphabet up to the length bound is split"})
 	c.Sample(map[string]interface{}{"rendered": "\"a b\" \\\nk=<<EOF\nline1\nline2\nEOF\na a\n", "expect": []string{"a b", "k=line1\nline2"}})
@@ -468,6 +521,10 @@ func replay(wj json.RawMessage) (*fw.Violation, error) {
 		var b []byte
 		fmt.Sscanf(*w.Raw, "%x", &b)
 		f = checkString(string(b))
+	case w.Heredoc != nil:
+		var b []byte
+		fmt.Sscanf(*w.Heredoc, "%x", &b)
+		f = checkHeredoc(string(b))
 	case w.List != nil:
 		f = checkList(*w.List)
 	case w.Inject != nil:
@@ -481,7 +538,7 @@ func replay(wj json.RawMessage) (*fw.Violation, error) {
 
 func init() {
 	fw.Register(&fw.Check{ID: "C17", Level: "exploration",
-		Rule: "ALL byte strings of length <= 7 (quick) / <= 9 (thorough) over the alphabet {space, tab, newline, '\"', backslash, '=', '<', 'a', 0xff}: totality on every one (no panic, terminates, reader drained call by call); strings without quote/backslash/heredoc additionally against the plain-word reference (per-line blank-separated fields byte for byte, eof flags); strings whose backslashes precede a letter or a continuation newline against the argument-count reference. Plus every argument list of <= 3 arguments from a 12-entry pool rendered in every applicable form (bare, quoted, heredoc) with 4 separators (incl. backslash-newline), followed by a second command; plus InjectArgs mapping on each list. distinct = inputs",
+		Rule: "ALL byte strings of length <= 7 (quick) / <= 9 (thorough) over the alphabet {space, tab, newline, '\"', backslash, '=', '<', 'a', 0xff}: totality on every one (no panic, terminates, reader drained call by call); strings without quote/backslash/heredoc additionally against the plain-word reference (per-line blank-separated fields byte for byte, eof flags); strings whose backslashes precede a letter or a continuation newline against the argument-count reference. Plus every argument list of <= 3 arguments from a 12-entry pool rendered in every applicable form (bare, quoted, heredoc) with 4 separators (incl. backslash-newline), followed by a second command; plus InjectArgs mapping on each list; plus every heredoc body of <= 4 (quick) / <= 5 (thorough) symbols over {a, newline, E, O, F, space, 0xff} with marker EOF (bodies ending in empty lines or in a prefix of the marker included). distinct = inputs",
 		Run: run, Replay: replay,
 		Assumptions: []string{"length bound as stated; the 'randomly beyond' part is not claimed", "content of words containing a bare backslash is unspecified (only totality and argument count are required)", "an empty heredoc body cannot be rendered by the reference quoting (text must be non-empty)"}})
 }
